@@ -26,6 +26,7 @@ class RunResult:
         self.sim_usec = 0
         self.unparsed = 0
         self.digest = ""         # determinism digest of the whole run
+        self.max_cpu_us = 0
 
     def viol(self, key, **detail):
         self.violations.append((key, detail))
@@ -43,6 +44,8 @@ class RunResult:
         self.ops += 1
         self.hashes.append(o.event_hash)
         self.sim_usec += o.sim_usec
+        if not o.killed:
+            self.max_cpu_us = max(self.max_cpu_us, o.cpu_us)
         c = o.counters
         for i, name in ((2, "open_fail"), (3, "read_eof"), (4, "read_eio"), (5, "write_fail"),
                         (6, "vanish"), (7, "emfile"), (8, "unlink_fail")):
@@ -76,6 +79,7 @@ class Engine:
     stub_components = ["file I/O below FILE* (SimFs via fopencookie)", "unlink", "time", "usleep (simulated clock)",
                        "signal/SIGINT delivery", "exit capture", "readline console", "heap/stack fill"]
     quick_budget = 60
+    quick_runs = 2000
     thorough_budget = 900
 
     def __init__(self, tier, seed):
@@ -178,7 +182,7 @@ def worker_main(engine_cls, tier, seed, counter, deadline, max_runs, out_q, wid,
 
 
 def new_agg():
-    return {"runs": 0, "ops": 0, "hashes": set(), "nt_hashes": set(), "faults": {}, "probes": {},
+    return {"runs": 0, "ops": 0, "max_cpu_us": 0, "hashes": set(), "nt_hashes": set(), "faults": {}, "probes": {},
             "sim_usec": 0, "violations": [], "samples": [], "errors": [], "unparsed": 0,
             "digests": {}, "restarts": 0, "max_index": -1}
 
@@ -189,6 +193,7 @@ def merge(agg, idx, plan, res, eng):
     agg["sim_usec"] += res.sim_usec
     agg["unparsed"] += res.unparsed
     agg["max_index"] = max(agg["max_index"], idx)
+    agg["max_cpu_us"] = max(agg["max_cpu_us"], res.max_cpu_us)
     hs = set(res.hashes)
     agg["hashes"] |= hs
     if res.nontrivial:
@@ -208,6 +213,7 @@ def fold(total, agg):
     for k in ("runs", "ops", "sim_usec", "unparsed", "restarts"):
         total[k] += agg[k]
     total["max_index"] = max(total["max_index"], agg["max_index"])
+    total["max_cpu_us"] = max(total["max_cpu_us"], agg["max_cpu_us"])
     total["hashes"] |= agg["hashes"]
     total["nt_hashes"] |= agg["nt_hashes"]
     for k, v in agg["faults"].items():
@@ -364,9 +370,18 @@ def main(engine_cls):
             log("error: " + e)
         sys.exit(0 if not diffs and not a["errors"] and not b["errors"] else 2)
 
-    budget = args.budget if args.budget is not None else (
-        engine_cls.quick_budget if tier == "quick" else engine_cls.thorough_budget)
-    total = explore(engine_cls, tier, seed, budget, args.runs, args.workers)
+    max_runs = args.runs
+    if args.budget is not None:
+        budget = args.budget
+    elif tier == "quick":
+        # a fixed set of run indices, so that the quick check is reproducible on any machine;
+        # the time budget is only a safety cap
+        budget = engine_cls.quick_budget * 5
+        if not max_runs:
+            max_runs = engine_cls.quick_runs
+    else:
+        budget = engine_cls.thorough_budget
+    total = explore(engine_cls, tier, seed, budget, max_runs, args.workers)
     wall_explore = time.time() - t_start
 
     known = [k for k in load_known() if k["property"] == prop]
@@ -451,6 +466,7 @@ def main(engine_cls):
             "known_findings_observed": known_seen,
             "new_violation_keys": reported,
             "executor_restarts": total["restarts"],
+            "slowest_completed_lifetime_cpu_ms": round(total["max_cpu_us"] / 1000.0, 1),
             "workers": args.workers,
             "build_s": round(build_s, 1),
             "harness_errors": harness_trouble[:10],
